@@ -80,7 +80,7 @@ PROPERTIES = {
         "explanation": "R-RAISE, R-DEFASSIGN, R-REGKEY, R-KWSIG, R-ASSERT, R-CODEWIDTH (sentinel stores cannot overflow a narrow code dtype), R-LOOPSTORE (the planner cannot lose a cohort and trip its own assert)",
     },
     "C02": {
-        "rules": [M.rule_plan, rule_algebra, rule_cover, PR.rule_pairs_dummyaxis, rule_token, PR.rule_codelabels, M.rule_combinebypass, M.rule_nanfinal, CD.rule_indexer],
+        "rules": [M.rule_plan, rule_algebra, rule_cover, PR.rule_pairs_dummyaxis, rule_token, PR.rule_codelabels, M.rule_combinebypass, M.rule_nanfinal, CD.rule_indexer, rule_axisorder],
         "thorough": [selftest, seeded_regression],
         "technique": "CFG must-pass-through (finalizer), resolved embeddings of combine/aggregate callables, access-path agreement",
         "level_text": "Static, all-paths: every plan funnels into the one finalizer on every path, only the two sibling combine algorithms "
@@ -207,3 +207,40 @@ NOT_APPLICABLE = {
 # properties whose rules are designed (DESIGN.md §3) but not built yet: not claimed until they are
 PENDING = {p: "static rules designed in DESIGN.md but not built yet in this revision; not claimed"
            for p in []}
+
+# Later-wave clauses (DESIGN.md §3, "second" to "fifth wave"): appended to the claimed level so that MANIFEST.json says what is decided today.
+LATER = {
+    "C01": "validity counts accumulate in a wide integer (R-COUNTWIDTH); no Fortran-order flatten for position-picking reductions (R-FORDER); "
+           "layout-independent flattening, label/value co-permutation, rename discipline of the dispatcher.",
+    "C02": "every block passes the re-indexer, the second reduction of the grouped combine is never skipped (R-COMBINEBYPASS), finalizers "
+           "propagate NaN (R-NANFINAL), the -1 of get_indexer is consulted before use as a position (R-INDEXER), explicit axis tuples are sorted "
+           "before positional use (R-AXISORDER).",
+    "C03": "every stage of one combine runs with the caller's `sort` (R-PASSTHROUGH[sort]).",
+    "C04": "isfinite is never a validity mask (R-FINITE); finalizers propagate NaN (R-NANFINAL).",
+    "C05": "every path of the dtype normaliser passes the fill-value widening (R-FILLWIDEN); get_indexer's -1 is consulted (R-INDEXER); "
+           "code/label producers (R-IDENTITYCODES, R-LABELVALUE, R-MISSINGCODE).",
+    "C06": "no Fortran-order flatten for first/last (R-FORDER).",
+    "C07": "grouper transposition uses the forward permutation (R-PAIRS[transpose]); code producers and closed sides (R-CODEWIDTH ... R-CODELABELS).",
+    "C08": "axis range refused (R-AXISRANGE), size-1 label dimensions broadcast for any number of reduced axes (R-PAIRS[broadcast*]), "
+           "explicit axis tuples sorted before positional use (R-AXISORDER).",
+    "C09": "get_indexer's -1 consulted (R-INDEXER); dask's key array indexed with an open mesh over every axis (R-MESHINDEX); the block-id "
+           "shortcut of the incidence matrix is guarded per chunk (R-BITMASK).",
+    "C10": "the dask pre-scan accumulates in the blueprint dtype (R-SCANACC); run-start kernels handle an empty axis (R-EMPTYKERNEL); "
+           "missing-value shortcuts only for kinds without one (R-KINDMISSING, one open known finding).",
+    "C11": "input representation restored under head flags only and never for integer-valued results (R-ROUNDTRIP); fill widening on every path "
+           "(R-FILLWIDEN); blockwise plans see broadcast labels (R-BLOCKBCAST); chunk / index / key tuples have one entry per dimension for "
+           "every number of reduced axes (R-ARITY, a tuple-arity algebra).",
+    "C14": "no task writes through its input (R-PURE).",
+    "C16": "per-block and combine-step label lists follow `sort` (R-BLOCKLABELS).",
+    "C18": "quantile levels bounded to [0, 1] (R-QRANGE); renames in the dispatcher keep the NaN discipline (R-DISPATCH).",
+    "C19": "necessary conditions of 'auto works wherever map-reduce does': refusals after the plan choice are anticipated by _choose_method "
+           "(R-AUTOREFUSE), refusals keyed on a user option by the proposal guard (R-AUTOPARAM), the planner never proposes cohorts with an empty "
+           "map (R-EMPTYCOHORTS); and of clean refusal: alignment / axis range / quantile range / dtype normalisation refusals dominate the kernels, "
+           "refusals test the normalised form of two-spelling options (R-NORMFORM), no in-place mutation of a definite tuple (R-SEQKIND), "
+           "blockwise plans see broadcast labels (R-BLOCKBCAST), tuple arities hold for every number of axes (R-ARITY), the key array is meshed "
+           "(R-MESHINDEX), axis tuples are sorted (R-AXISORDER).",
+    "C20": "isfinite never a validity mask (R-FINITE), padding identities never mistaken for absence (R-COLLIDE), wide validity counts (R-COUNTWIDTH).",
+}
+for _p, _t in LATER.items():
+    if _p in PROPERTIES:
+        PROPERTIES[_p]["level_text"] += " Later clauses (necessary conditions, DESIGN.md §3): " + _t
